@@ -33,7 +33,14 @@ impl InputPlugin for InjectInputPlugin {
                 )));
             }
         }
-        input[self.key.clone()] = self.value.clone();
-        Ok(())
+        match input.as_object_mut() {
+            Some(obj) => {
+                obj.insert(self.key.clone(), self.value.clone());
+                Ok(())
+            }
+            None => Err(InputPluginError::UnexpectedQueryStructure(String::from(
+                "query is not a JSON object",
+            ))),
+        }
     }
 }
